@@ -103,7 +103,10 @@ def side(draw, n, keys, tag):
     for kv in keys:
         f = form if form != "mixed" else draw(st.sampled_from(["name", "own", "ext"]))
         if f == "ext":
-            specs.append(("ext", list(kv)))
+            # an external key vector may carry a name - also the name of a column the table stores (a derived key such as
+            # t.k.fillna(0) keeps the name k): it is the vector that was passed, not its namesake
+            nm_ = draw(st.sampled_from([None, None, "k", "id"] + [c_[0] for c_ in cols if isinstance(c_[0], str)]))
+            specs.append(("ext", list(kv), nm_))
             continue
         # stored key column whose name is unique among the stored names (a lookup by name denotes
         # exactly this column); placed before, between or after the payload columns
@@ -150,7 +153,7 @@ def realise(case):
             return None
         t = build_table(cols)
         on, keycols = [], []
-        for kind, val in sd["specs"]:
+        for kind, val, *extra in sd["specs"]:
             if kind == "name":
                 on.append(val)
                 keycols.append([v for nm, v in cols if nm == val][0])
@@ -158,7 +161,7 @@ def realise(case):
                 on.append(t.cols()[val])
                 keycols.append(cols[val][1])
             else:
-                on.append(S.Vector(list(val)))
+                on.append(S.Vector(list(val), name=extra[0]) if (extra and extra[0] is not None) else S.Vector(list(val)))
                 keycols.append(val)
         keys = [tuple(kc[i] for kc in keycols) for i in range(n)]
         if len(on) == 1 and not case["as_list"]:
@@ -209,9 +212,12 @@ def group_case(draw, tier="quick"):
     nk = draw(st.sampled_from([1, 1, 2, 2, 3]))
     keys = []
     for _ in range(nk):
-        kind = draw(st.sampled_from(["int", "str", "bool", "date", "none", "tie", "twin"]))
+        kind = draw(st.sampled_from(["int", "str", "bool", "date", "none", "tie", "twin", "cell"]))
         if kind == "none":
             alpha = [None]
+        elif kind == "cell":
+            # key cells that are tuples themselves (a single key column of tuples is not a composite key)
+            alpha = draw(st.lists(st.sampled_from([(1, 2), (3,), (3, 4), (), (1, 2, 3), None]), min_size=2, max_size=4, unique=True))
         elif kind == "tie":
             alpha = draw(st.lists(st.sampled_from([1, 1.0, True, 0, 0.0, False, 2]), min_size=2, max_size=4, unique_by=lambda v: (type(v), v)))
         elif kind == "twin":
